@@ -164,7 +164,7 @@ func vpRun(c *vpCase, dir string, emit func(*vpObs)) {
 			} else {
 				putTx[string(tx.Hash)] = si
 			}
-		case "produce":
+		case "produce", "attempt": // attempt = a block production that is discarded (not committed, pool not told)
 			txs, err := mp.get(1 << 20)
 			if err != nil {
 				o.Err = err.Error()
@@ -187,8 +187,10 @@ func vpRun(c *vpCase, dir string, emit func(*vpObs)) {
 				to.After = dumpAcc(bs.StateDB)
 				o.Txs = append(o.Txs, to)
 			}
-			bs.Update()
-			commit(bs)
+			if st.Op == "produce" {
+				bs.Update()
+				commit(bs)
+			}
 		}
 		o.PoolN = mp.length
 		emit(o)
